@@ -57,11 +57,18 @@ class Interp:
             return st.v.get(x[1], TOP)
         if t == "g":
             return st.v.get("g:" + x[1], TOP)
-        if t in ("p", "f", "s", "this", "def"):
+        if t == "f":
+            return st.v.get("f:" + x[1], TOP) if len(x) == 2 else TOP
+        if t == "p":
+            return st.v.get("p:" + x[2], TOP)
+        if t in ("s", "this", "def"):
             return TOP
         if t == "cast":
             return self.ev(x[2], st)
         if t == "x":
+            if x[1][0] == "f" and len(x[1]) == 2 and ("arr:" + x[1][1]) in st.v:
+                i = self.ev(x[2], st)
+                return st.v["arr:" + x[1][1]](i, st) if i != TOP else TOP
             self.ev(x[1], st)
             self.ev(x[2], st)
             return TOP
@@ -69,12 +76,16 @@ class Interp:
             op = x[1]
             if op in ("++post", "++pre", "--post", "--pre"):
                 tgt = x[2]
-                if tgt[0] != "l":
+                if tgt[0] == "f" and len(tgt) == 2:
+                    key = "f:" + tgt[1]
+                elif tgt[0] == "l":
+                    key = tgt[1]
+                else:
                     self.ev(tgt, st)
                     return TOP
-                old = st.v.get(tgt[1], TOP)
+                old = st.v.get(key, TOP)
                 new = TOP if old == TOP else old + (1 if op[0] == "+" else -1)
-                st.v[tgt[1]] = new
+                st.v[key] = new
                 return old if op.endswith("post") else new
             v = self.ev(x[2], st)
             if op == "*":
@@ -164,6 +175,12 @@ class Interp:
         if lhs[0] == "l":
             st.v[lhs[1]] = v
             return v
+        if lhs[0] == "f" and len(lhs) == 2:
+            st.v["f:" + lhs[1]] = v
+            return v
+        if lhs[0] == "p":
+            st.v["p:" + lhs[2]] = v
+            return v
         if lhs[0] == "u" and lhs[1] == "*":
             inner = lhs[2]
             if inner[0] == "u" and inner[1] == "++post" and inner[2][0] == "l":
@@ -231,7 +248,14 @@ class Interp:
                 yield from self.run(s[2] if c else s[3], st)
         elif t == "switch":
             yield from self.run_switch(s, st)
-        elif t in ("break", "continue", "return"):
+        elif t == "return":
+            if len(s) > 1 and isinstance(s[1], list):
+                try:
+                    st.v["__ret"] = self.ev(s[1], st)
+                except _Throw:
+                    return
+            yield t, st
+        elif t in ("break", "continue"):
             yield t, st
         elif t == "null":
             yield "next", st
